@@ -291,14 +291,14 @@ theorem ecdf1_le_one (m : EcdfMethod) (x : List Rat) (y : Rat) : ecdf1 m x y ≤
       | none =>
         simp only
         unfold linspace
-        split_ifs <;> simp [List.getD] <;> try norm_num
+        split_ifs <;> (simp [List.getD]; try norm_num)
         all_goals (have : x.length = 0 := by omega); simp [this]
       | some j =>
         simp only
         have hj : j + 1 ≥ (sortQ x).length := by omega
         rw [if_pos hj]
         unfold linspace
-        split_ifs <;> simp [List.getD] <;> try norm_num
+        split_ifs <;> (simp [List.getD]; try norm_num)
         all_goals (have : x.length = 0 := by omega); simp [this]
 
 theorem ecdf1_nonneg (m : EcdfMethod) (x : List Rat) (y : Rat) : 0 ≤ ecdf1 m x y := by
@@ -313,14 +313,14 @@ theorem ecdf1_nonneg (m : EcdfMethod) (x : List Rat) (y : Rat) : 0 ≤ ecdf1 m x
       | none =>
         simp only
         unfold linspace
-        split_ifs <;> simp [List.getD] <;> try norm_num
+        split_ifs <;> (simp [List.getD]; try norm_num)
         all_goals (have : x.length = 0 := by omega); simp [this]
       | some j =>
         simp only
         have hj : j + 1 ≥ (sortQ x).length := by omega
         rw [if_pos hj]
         unfold linspace
-        split_ifs <;> simp [List.getD] <;> try norm_num
+        split_ifs <;> (simp [List.getD]; try norm_num)
         all_goals (have : x.length = 0 := by omega); simp [this]
 
 /-! ### inverse empirical cdfs are equivariant (`lerp` is affine) -/
